@@ -3,7 +3,8 @@
 set -u
 . /verif/env.sh
 sd=$1; id=$(basename $sd)
-d=/var/tmp/neut.$id; v=/tmp/ivqn.$id
+tag=$(echo "$sd" | md5sum | cut -c1-8)
+d=/var/tmp/neut.$id.$tag; v=/tmp/ivqn.$id.$tag
 rm -rf $d $v; mkdir -p $d $v; rsync -a --exclude .git /repo/ $d/; cp /verif/known_findings.txt $v/
 cd $d
 patch -p1 -s -F3 < $sd/patch.diff >/dev/null 2>&1 || { echo "$id NOAPPLY"; rm -rf $d $v; exit 0; }
